@@ -74,10 +74,14 @@ claimed.update({
    design_ref="DESIGN.md section 4 (C01), 9",
    note="This check guards the mechanisms C01 depends on (it caught D2 and D3, which lose parses); it does not prove C01."),
 })
-for k in ("C04","C07","C14","C10","C03","C02","C13","C06","C01"):
+claimed["C12"] = dict(
+   category="other",
+   text="Deductive, two layers. (1) The same obligations as C09/C11: every reader primitive and File/FileSet accessor is proved, for every base offset >= 1, to meet a postcondition phrased over the cursor pos - file.offset and the file's bytes only (the three seeded C12 changes each break one of these obligations). (2) Placement-invariance lemmas over those postconditions, discharged by the solver with no code involved: for two readers over the same bytes at different base offsets and two positions with the same cursor, Remaining and IsEOF agree; ReadRune, MatchString, MatchWord, ReadRegexp, ReadRegexpSubmatch and SkipWhitespaces return the same verdict and new positions (and SkipWhitespaces error positions) shifted by exactly the difference of the base offsets; Reader.Pos shifts by the same difference (lemmas shiftRemaining, shiftReadRune, shiftMatchString, shiftMatchWord, shiftReadRegexp, shiftReadRegexpSubmatch, shiftSkipWhitespaces, shiftPos). For the regexp primitives this needed their contracts to be functional: the match is reFindLen(source, bytes from the cursor), an uninterpreted function of the pattern source and the text. FileSet.Position is proved to delegate to the owning file with the local offset, so rendered line:column do not depend on the base offset. NOT decided: the lifting from primitives to whole parses (combinators only pass positions on and compare positions of the same run; Memoize's curtailment reads Remaining, which is invariant by lemma) is a parametricity meta-argument, not machine-checked; Readf depends on its callback and has no lemma.",
+   design_ref="DESIGN.md section 4 (C12), 9.5",
+   note="Assumed: contracts of regexp (FindIndex/FindSubmatch return what reFindLen says), utf8; the two files hold the same data slice and length (the model of 'the same file placed elsewhere').")
+for k in ("C04","C07","C14","C10","C03","C02","C13","C06","C01","C12"):
     claimed[k]["technique"] = PARTIAL
 NA = {
- "C12": "placement invariance is a relational (two-run) statement; the per-run contracts of every reader primitive are proved (C09) and are phrased over pos - file.offset and the file's bytes only, but the two-run lemma facility was not built in this round, so no discharged obligation states the shift property",
  "C05": "differential agreement with a reference evaluator on a client grammar: depends on the shape of trees built by curtailed left recursion (C01's global theorem) plus a model of client interpreters; no contract on a function of /repo states it",
  "C16": "differential statement against encoding/json (and strconv/regexp semantics) for all documents; contracts reach only the pieces (claimed under C08/C10/C13)",
  "C17": "asymptotic bound on call counts over grammar families is not a pre/postcondition of any function; proving a ghost cost bound is the FHC complexity theorem itself",
